@@ -55,6 +55,7 @@ Record e2e_obs := {
   x_rest : list string; x_dec : option string;   (* the body with the codings its label names undone, as far as they are known *)
   x_bcount : Z; x_bmethod : string; x_btarget : string; x_bparsed : option (string * string);
   x_bhost : string; x_bheaders : headers; x_bbody : string;
+  x_bbody2 : string;                               (* the body a second attempt (retry) delivered *)
   x_brest : list string; x_bdec : option string
 }.
 
@@ -161,12 +162,14 @@ Definition obs_of_outcome (c : e2e_case) (o : outcome) : e2e_obs :=
            x_bcount := attempts c wopt; x_bmethod := bq_method r; x_btarget := bq_target r;
            x_bparsed := f_parse_target f (bq_target r);
            x_bhost := bq_host r; x_bheaders := bq_headers r; x_bbody := bq_body r;
+           x_bbody2 := if attempts c wopt =? 2 then bq_body r else EmptyString;
            x_brest := match peel c (bq_headers r) (bq_body r) with Some p => fst p | None => [] end;
            x_bdec := option_map snd (peel c (bq_headers r) (bq_body r)) |}
     end in
   let empty := {| x_got := false; x_status := 0; x_headers := []; x_cl := None; x_body := EmptyString;
                   x_frame := false; x_rest := []; x_dec := None; x_bcount := 0; x_bmethod := EmptyString; x_btarget := EmptyString;
-                  x_bparsed := None; x_bhost := EmptyString; x_bheaders := []; x_bbody := EmptyString; x_brest := []; x_bdec := None |} in
+                  x_bparsed := None; x_bhost := EmptyString; x_bheaders := []; x_bbody := EmptyString; x_bbody2 := EmptyString;
+                  x_brest := []; x_bdec := None |} in
   match o with
   | NoResponse b => bpart b empty
   | Answered w b =>
@@ -175,7 +178,8 @@ Definition obs_of_outcome (c : e2e_case) (o : outcome) : e2e_obs :=
                  x_rest := match peel c (w_headers w) (w_body w) with Some p => fst p | None => [] end;
                  x_dec := option_map snd (peel c (w_headers w) (w_body w));
                  x_bcount := 0; x_bmethod := EmptyString; x_btarget := EmptyString; x_bparsed := None;
-                 x_bhost := EmptyString; x_bheaders := []; x_bbody := EmptyString; x_brest := []; x_bdec := None |}
+                 x_bhost := EmptyString; x_bheaders := []; x_bbody := EmptyString; x_bbody2 := EmptyString;
+                 x_brest := []; x_bdec := None |}
   end.
 
 (** headers net/http's server may add to a response on its own *)
@@ -191,7 +195,7 @@ Definition corr_backend (m o : e2e_obs) : bool :=
   String.eqb (x_bhost m) (x_bhost o) &&
   agree_on (keys (x_bheaders m)) (x_bheaders m) (x_bheaders o) &&
   forallb (fun k => mem k (keys (x_bheaders m)) || mem k hop_framing) (keys (x_bheaders o)) &&
-  String.eqb (x_bbody m) (x_bbody o).
+  String.eqb (x_bbody m) (x_bbody o) && String.eqb (x_bbody2 m) (x_bbody2 o).
 
 Definition corr_e2e (m o : e2e_obs) : bool :=
   corr_backend m o &&
@@ -236,6 +240,8 @@ Definition prop_req (c : e2e_case) (x : e2e_obs) : bool :=
       let '(want_rest, want_b) := if a_on ra && nonempty (a_body ra) then ([], a_body ra) else (rest, content) in
       ((x_bcount x =? 1) ||
        (retryable c && (x_bcount x =? 2) && (failure_code cfg (e_resp_status c) || (x_status x =? 500)))) &&
+      (* every attempt delivers the same body *)
+      implb (x_bcount x =? 2) (String.eqb (x_bbody2 x) (x_bbody x)) &&
       String.eqb (x_bmethod x) (e_method c) &&
       opt_eqb pair_eqb (x_bparsed x) (Some (path, query)) &&
       opt_eqb String.eqb (x_bdec x) (Some want_b) && strs_eqb (x_brest x) want_rest &&
